@@ -29,6 +29,7 @@ def loopView (target : String) (cut : Nat) : Option (Bytes × Nat) :=
   else if target == "grease_ctrl" then some (stdSettingsFrame ++ cutGrease, stdSettingsFrame.length + cut)
   else if target == "grease_sess" then some (cutGrease, cut)
   else if target == "capsule" then some (cutCapsule, cut)
+  else if target == "grease_capsule" then some (cutGrease ++ cutCapsule, cut)
   else none
 
 def handle7 (op : String) (a obs : List String) : Option Verdict :=
@@ -36,11 +37,12 @@ def handle7 (op : String) (a obs : List String) : Option Verdict :=
   | "ctrl.cut" => do
     let target := get a 2
     let cut ← parseNat (get a 3)
-    let onSession := target == "grease_sess" || target == "capsule"
+    let isCapsule := target == "capsule" || target == "grease_capsule"
+    let onSession := target == "grease_sess" || isCapsule
     -- the outcome of the whole element, from the worker model
     let wholeOutcome : String :=
-      if target == "capsule" then
-        match Worker.connectRun cutCapsule .open_ with
+      if isCapsule then
+        match Worker.connectRun (if target == "capsule" then cutCapsule else cutGrease ++ cutCapsule) .open_ with
         | some (.appClosed c r) => connErr (.appClosed c r)
         | some (.proto e) => h3 e
         | _ => "timeout"
@@ -60,7 +62,7 @@ def handle7 (op : String) (a obs : List String) : Option Verdict :=
         | (some _, none) => "established"
         | (_, some (.proto e)) => h3 e
         | _ => "timeout"
-    let wholePeer := if target == "capsule" then s!"app:{H3Err.noError.toCode}:-" else "alive"
+    let wholePeer := if isCapsule then s!"app:{H3Err.noError.toCode}:-" else "alive"
     let persist := if onSession then Generated.CONTROL_READ_PERSISTS_CONNECT else Generated.CONTROL_READ_PERSISTS_SETTINGS
     let tearPossible : Bool :=
       !persist &&
@@ -82,7 +84,7 @@ def handle7 (op : String) (a obs : List String) : Option Verdict :=
       | none => none
       | some (content, c) =>
         let eff := Select.effective persist [⟨content.take c, true⟩, ⟨content.drop c, false⟩]
-        if target == "capsule" then
+        if isCapsule then
           some (match Worker.connectRun eff .open_ with
             | some (.appClosed c r) => connErr (.appClosed c r)
             | some (.proto e) => h3 e
